@@ -5,9 +5,11 @@ package main
 // Expected change of the total of all balances = - (what self-destruct-to-itself burns), nothing else.
 
 import (
+	"crypto/ecdsa"
 	"fmt"
 	"math/big"
 	"os"
+	"sort"
 
 	"github.com/LemoFoundationLtd/lemochain-core/chain/account"
 	"github.com/LemoFoundationLtd/lemochain-core/chain/params"
@@ -259,4 +261,109 @@ func (l *ledger) measureCreate(parent *types.Block, t uint32, tx *types.Transact
 		return ""
 	})
 	return need
+}
+
+// ---- environment-reading contracts (BLOCKHASH / COINBASE / TIMESTAMP / NUMBER / GASLIMIT) ------------------------
+
+// bhCode: (prelude without STOP, runtime) that store BLOCKHASH(NUMBER-k) — or BLOCKHASH(NUMBER+5) for "oor" — in slot 0.
+func bhCode(k string) ([]byte, []byte) {
+	var ops []byte
+	switch k {
+	case "oor":
+		ops = []byte{0x60, 0x05, 0x43, 0x01, 0x40, 0x60, 0x00, 0x55} // PUSH1 5 NUMBER ADD BLOCKHASH PUSH1 0 SSTORE
+	case "257":
+		ops = []byte{0x61, 0x01, 0x01, 0x43, 0x03, 0x40, 0x60, 0x00, 0x55} // PUSH2 257 NUMBER SUB BLOCKHASH PUSH1 0 SSTORE
+	default:
+		n := byte(k[0] - '0')
+		ops = []byte{0x60, n, 0x43, 0x03, 0x40, 0x60, 0x00, 0x55} // PUSH1 k NUMBER SUB BLOCKHASH PUSH1 0 SSTORE
+	}
+	return ops, append(append([]byte{}, ops...), 0x00)
+}
+
+// envCode: COINBASE -> slot 1, TIMESTAMP -> 2, NUMBER -> 3, GASLIMIT -> 4.
+func envCode() ([]byte, []byte) {
+	ops := []byte{0x41, 0x60, 0x01, 0x55, 0x42, 0x60, 0x02, 0x55, 0x43, 0x60, 0x03, 0x55, 0x45, 0x60, 0x04, 0x55}
+	return ops, append(append([]byte{}, ops...), 0x00)
+}
+
+// initWithPrelude: init code that first runs `prelude` (stack-neutral) and then deploys `runtime`.
+func initWithPrelude(prelude, runtime []byte) []byte {
+	n := len(runtime)
+	hdr := cat(push(int64(n)), []byte{0x80}, []byte{0x60, 0x00}, []byte{0x60, 0x00}, []byte{0x39}, []byte{0x60, 0x00}, []byte{0xf3})
+	hdr[len(push(int64(n)))+2] = byte(len(prelude) + len(hdr)) // CODECOPY source offset
+	return cat(prelude, hdr, runtime)
+}
+
+// aliveContract: a contract of the given creation class that has code in the view of block h.
+func (l *ledger) aliveContract(h common.Hash, contractClass map[common.Address]string, class string) common.Address {
+	var found []common.Address
+	for a, cl := range contractClass {
+		if cl == class {
+			found = append(found, a)
+		}
+	}
+	sort.Slice(found, func(i, j int) bool { return found[i].String() < found[j].String() })
+	am := account.NewManager(h, l.n.DB)
+	for _, a := range found {
+		if code, _ := am.GetAccount(a).GetCode(); len(code) > 0 {
+			return a
+		}
+	}
+	return common.Address{}
+}
+
+// blockhashFork: three blocks s1 <- s2 <- s3 on `parent`, mined on node A's data at slots of other deputies than the one
+// in turn at `t`, inserted (never confirmed) into node A and node B; s3 calls the contract that stores BLOCKHASH(NUMBER-2),
+// i.e. the hash of s1. The main chain continues from `parent` afterwards. Returns false when the branch could not be built.
+func (l *ledger) blockhashFork(nb *Node, parent *types.Block, t uint32, exp uint64, bh2 common.Address) bool {
+	c := l.c
+	if l.n.DM.GetDeputiesCount(parent.Height()+1) < 2 {
+		return false
+	}
+	mainMiner, _, err := l.inTurn(parent, t)
+	if err != nil {
+		return false
+	}
+	slot := uint32(l.w.Timeout / 1000)
+	p, tt := parent, t
+	var side []*types.Block
+	for i := 0; i < 3; i++ {
+		var k *ecdsa.PrivateKey
+		found := false
+		for j := uint32(1); j <= 6; j++ {
+			t2 := tt + j*slot
+			addr, kk, err := l.inTurn(p, t2)
+			if err != nil || (i == 0 && addr == mainMiner) {
+				continue
+			}
+			k, tt, found = kk, t2, true
+			break
+		}
+		if !found {
+			return false
+		}
+		txs := types.Transactions{txTransfer(l.w.FounderKey, keyAddr(l.key("u3")), lemo(int64(1+c.Rnd.Intn(50))), TxOpt{Exp: exp, Msg: fmt.Sprintf("bhf-%d-%d", parent.Height(), i)})}
+		if i == 2 {
+			txs = append(txs, txCall(l.w.FounderKey, bh2, nil, []byte{2}, TxOpt{Exp: exp, GasLimit: 200000, Msg: fmt.Sprintf("bhf-call-%d", parent.Height())}))
+		}
+		blk, _, _, err := l.buildRec(p, tt, txs, k, 105000000)
+		if err != nil || len(blk.Txs) != len(txs) {
+			c.Count("bhfork:side-block-not-built")
+			return false
+		}
+		if e := l.n.Insert(CloneBlock(blk)); e != nil {
+			c.Fail("c01/honest-block-rejected/side-branch", fmt.Sprintf("block %d of a side branch (honestly mined on node A's data) is rejected by node A's validator path: %v", blk.Height(), e), nil)
+			return false
+		}
+		// (node B right away: the process-wide self node key is still this block's miner, so no engine adds a confirmation
+		// of ANOTHER deputy on its own — the side branch must stay unstable)
+		if e := nb.Insert(CloneBlock(blk)); e != nil {
+			c.Fail("c01/honest-block-rejected/side-branch", fmt.Sprintf("block %d of a side branch mined on node A is rejected by node B: %v", blk.Height(), e), nil)
+			return false
+		}
+		side = append(side, blk)
+		p = blk
+	}
+	c.Count("bhfork:side-branch-executed-by-both-nodes")
+	return true
 }
